@@ -51,5 +51,8 @@ Definition inflated_too_big (max_msg_size len : N) : bool := ((negb (max_msg_siz
 Definition close_code_bad (code : N) : bool := ((4999 <? code) || ((code <? 3000) && (negb (ws_mem code ALLOWED_CLOSE_CODES)))).
 Definition inflate_cap (max_msg_size : N) : N := if max_msg_size =? 0 then max_msg_size else (max_msg_size + 1).
 
+(* WebSocketDataQueue shapes checked: FIFO append/popleft; _read_from_buffer hands out buffered messages before the stored exception *)
+Definition queue_buffer_before_exception : bool := true.
+
 (* feed_data latch shape checked: `if self._exc is not None: return True, data` / except Exception: self._exc = exc *)
 Definition feed_data_latches : bool := true.
